@@ -5,6 +5,7 @@ import (
 	"go/types"
 	"reflect"
 	"sort"
+	"strings"
 
 	"golang.org/x/tools/go/ssa"
 )
@@ -499,10 +500,17 @@ func (ex *Exec) fsIntrinsic(fn *ssa.Function, name string, args []Value) (Value,
 	switch name {
 	case "encoding/json.Marshal":
 		s := ex.fs()
-		src := args[0].(Iface).v.(Ptr).loc.(*StructObj)
 		s.ntok++
 		tok := fmt.Sprintf("J%d", s.ntok)
-		s.tokens[tok] = ex.cloneLoc(src)
+		switch src := args[0].(Iface).v.(type) {
+		case Ptr:
+			s.tokens[tok] = ex.cloneLoc(src.loc.(*StructObj))
+		case *MapObj:
+			cp := &MapObj{keyT: src.keyT, elemT: src.elemT, ents: append([]MapEntry(nil), src.ents...)}
+			s.tokens[tok] = cp
+		default:
+			panic(unsupported(fmt.Sprintf("json.Marshal of %T", src)))
+		}
 		return Tuple{ex.mkByteSlice(ex.strConst(tok).b), Iface{}}, true
 	case "encoding/json.Unmarshal":
 		s := ex.fs()
@@ -511,6 +519,48 @@ func (ex *Exec) fsIntrinsic(fn *ssa.Function, name string, args []Value) (Value,
 			return ex.fsErr("json"), true
 		}
 		dst := args[1].(Iface).v.(Ptr).loc.(*StructObj)
+		if m, isMap := v.(*MapObj); isMap {
+			// a JSON object built from a map: every key that names a tagged field overrides that field
+			for i := range dst.fields {
+				tag := strings.Split(reflect.StructTag(dst.typ.Tag(i)).Get("json"), ",")[0]
+				if tag == "" || tag == "-" {
+					continue
+				}
+				for _, e := range m.ents {
+					if ex.concreteStr(e.k) != tag {
+						continue
+					}
+					val := e.v
+					if ifc, ok := val.(Iface); ok {
+						val = ifc.v
+					}
+					cell, isCell := dst.fields[i].(*Cell)
+					if !isCell {
+						panic(unsupported("json map value for aggregate field " + tag))
+					}
+					switch x := val.(type) {
+					case *Term:
+						fs := sortOf(dst.typ.Field(i).Type())
+						if fs < 0 {
+							panic(unsupported("json map value for field " + tag))
+						}
+						if fs == BoolSort || x.sort == BoolSort {
+							cell.v = x
+						} else {
+							cell.v = ex.ts.SExt(x, fs)
+							if x.sort > fs {
+								cell.v = ex.ts.Extract(x, int(fs)-1, 0)
+							}
+						}
+					case Str:
+						cell.v = x
+					default:
+						panic(unsupported(fmt.Sprintf("json map value %T for field %s", val, tag)))
+					}
+				}
+			}
+			return Iface{}, true
+		}
 		srcObj, ok := v.(*StructObj)
 		if !ok || len(srcObj.fields) != len(dst.fields) {
 			return ex.fsErr("json"), true
